@@ -1,6 +1,7 @@
 package rules
 
 import (
+	"go/token"
 	"fmt"
 	"go/types"
 	"strings"
@@ -188,6 +189,41 @@ func c02Inject(c *Ctx, s *injectShape) {
 			e := ir.Edge{From: iff.Block(), Succ: 1}
 			if ir.OnlyViaEdge(fn, in, e) {
 				guard, guardMap, guardKey = &e, lk.X, lk.Index
+			}
+		}
+		// the same set spelt as map[K]bool: `if !seen[k] { seen[k] = true; ... }` - absent keys
+		// read as false, and only true is ever stored
+		boolSet := false
+		if guard == nil {
+			for _, iff := range ir.Ifs(fn) {
+				cond, falseSucc := iff.Cond, 1
+				if n, isNot := cond.(*ssa.UnOp); isNot && n.Op == token.NOT {
+					cond, falseSucc = n.X, 0
+				}
+				lk, ok := cond.(*ssa.Lookup)
+				if !ok || lk.CommaOk {
+					continue
+				}
+				mt, isMap := lk.X.Type().Underlying().(*types.Map)
+				if !isMap {
+					continue
+				}
+				if b, isB := mt.Elem().Underlying().(*types.Basic); !isB || b.Kind() != types.Bool {
+					continue
+				}
+				e := ir.Edge{From: iff.Block(), Succ: falseSucc}
+				if ir.OnlyViaEdge(fn, in, e) {
+					guard, guardMap, guardKey, boolSet = &e, lk.X, lk.Index, true
+				}
+			}
+			if boolSet {
+				ir.Instrs(fn, func(x ssa.Instruction) {
+					if mu, ok := x.(*ssa.MapUpdate); ok && mu.Map == guardMap {
+						if b, isB := ir.ConstBool(mu.Value); !isB || !b {
+							guard = nil // something other than true is stored: membership is not "reads true"
+						}
+					}
+				})
 			}
 		}
 		if guard == nil {
